@@ -77,8 +77,13 @@ impl Clients {
         let endpoint_id = client_config.guard.endpoint_id;
         trace!(remote_endpoint = %endpoint_id.fmt_short(), "registering client");
 
+        // Take the entry (and with it the map's shard lock) before the actor task is
+        // spawned: should the actor end right away, its `unregister` then waits until the
+        // connection has been inserted, instead of running first and leaving a dead
+        // connection registered.
+        let entry = self.0.clients.entry(endpoint_id);
         let client = Client::new(client_config, self, metrics.clone());
-        match self.0.clients.entry(endpoint_id) {
+        match entry {
             dashmap::Entry::Occupied(mut entry) => {
                 let state = entry.get_mut();
                 let old_client = std::mem::replace(&mut state.active, client);
